@@ -105,7 +105,6 @@ structure Restricted (r : RMod) (bbs : List BBox) : Prop where
   stmts : ∀ s ∈ r.stmts, s.OK bbs
   inputsPlain : ∀ i ∈ r.inputs, Plain i
   defsNodup : (r.inputs ++ r.stmts.flatMap (RStmt.defs bbs)).Nodup
-  closed : ∀ s ∈ r.stmts, ∀ n ∈ s.uses bbs, n ∈ r.inputs ∨ n ∈ r.stmts.flatMap (RStmt.defs bbs)
   outputsDriven : ∀ o ∈ r.outputs, o ∈ r.inputs ∨ o ∈ r.stmts.flatMap (RStmt.defs bbs)
   outputsNodup : r.outputs.Nodup
   instsNodup : (r.stmts.flatMap RStmt.instName).Nodup
@@ -168,13 +167,19 @@ def EdgeOf (bbs : List BBox) (ss : List RStmt) (t0 t1 : Name) (e : Name × Name)
 
 def RegOf (bbs : List BBox) (ss : List RStmt) (q : Name × BBox) : Prop := ∃ s ∈ ss, s.reg bbs q
 
-/-- a constant operand is used by some statement (after parity cancellation) -/
+/-- an operand (a constant, a net) is the source of an edge of some statement (after parity cancellation) -/
 def ConstUsed (bbs : List BBox) (ss : List RStmt) (k : ROp) : Prop := ∃ s ∈ ss, ∃ b, s.edge bbs k b
+
+/-- a floating net: the source of an edge (a net some statement reads, after parity cancellation) that is neither an
+    input nor defined by any statement; both readers create it as an undriven `buf` -/
+def Floating (bbs : List BBox) (ins : List Name) (ss : List RStmt) (n : Name) : Prop :=
+  ConstUsed bbs ss (.net n) ∧ ∀ t, ¬ DefTy bbs ins ss n t
 
 def NodeSpec (r : RMod) (bbs : List BBox) (t0 t1 : Name) (n : Name) (a : Option String × Bool) : Prop :=
   (∃ t, DefTy bbs r.inputs r.stmts n t ∧ a = (some t, decide (n ∈ r.outputs))) ∨
   (n = t0 ∧ a = (some "0", false) ∧ ConstUsed bbs r.stmts .c0) ∨
-  (n = t1 ∧ a = (some "1", false) ∧ ConstUsed bbs r.stmts .c1)
+  (n = t1 ∧ a = (some "1", false) ∧ ConstUsed bbs r.stmts .c1) ∨
+  (Floating bbs r.inputs r.stmts n ∧ a = (some "buf", false))
 
 /-- `c` is the circuit of netlist `r` with constant nodes named `t0`, `t1` -/
 structure Spec (r : RMod) (bbs : List BBox) (t0 t1 : Name) (c : Circuit) : Prop where
